@@ -222,11 +222,18 @@ def _check_state(ctx, iso, model, before, call, outcome, target=None):
 
 def _do(iso, call):
     fn = getattr(iso, call["fn"])
+    kw = dict(call["kw"])
+    if call.get("verbose") and call["fn"] != "convert_temperature":
+        kw["verbose"] = True  # (what the call does must not depend on whether it reports it)
+    import logging
+    logging.disable(logging.CRITICAL)
     try:
-        fn(**call["kw"])
+        fn(**kw)
         return ("ok", None)
     except Exception as exc:
         return ("exc", exc)
+    finally:
+        logging.disable(logging.NOTSET)
 
 
 _BUILD = [0]
@@ -351,6 +358,13 @@ def _run_edges(case, ctx):
 
 
 def _random_call(r, iso, hostile):
+    call = _random_call0(r, iso, hostile)
+    if r.random() < 0.25:
+        call["verbose"] = True
+    return call
+
+
+def _random_call0(r, iso, hostile):
     """One call description (JSON-able) given the current labels."""
     u = iso.units
     which = r.choice(["pressure", "loading", "material", "temperature", "convert", "pressure", "loading", "material"])
